@@ -150,7 +150,6 @@ static int parse_cb(cfg_t *cfg, cfg_opt_t *opt, const char *value, void *result)
 	FILE *mf; char *buf; size_t len;
 	int fail = cb_common(K_PARSE);
 	long n = cbcount[K_PARSE];
-	(void)cfg;
 	memprintf_begin(&mf, &buf, &len);
 	fprintf(mf, "{\"k\":\"parse\",\"o\":");
 	jstr(mf, cfg_opt_name(opt));
@@ -159,8 +158,10 @@ static int parse_cb(cfg_t *cfg, cfg_opt_t *opt, const char *value, void *result)
 	fprintf(mf, ",\"n\":%ld,\"fail\":%d}", n, fail);
 	fclose(mf);
 	logadd(buf);
-	if (fail)
+	if (fail) {
+		cfg_error(cfg, "value callback refused '%s'", value ? value : "(null)");
 		return 1;
+	}
 	switch (opt->type) {
 	case CFGT_INT:
 		*(long *)result = 1000 + n;
@@ -179,7 +180,7 @@ static int parse_cb(cfg_t *cfg, cfg_opt_t *opt, const char *value, void *result)
 	}
 	case CFGT_PTR: {
 		struct uptr *u = calloc(1, sizeof *u);
-		u->id = next_ptr_id++;
+		u->id = (int)n;	/* = index of the producing callback invocation */
 		u->text = strdup(value ? value : "(null)");
 		*(void **)result = u;
 		break;
@@ -219,7 +220,6 @@ static int valid_cb(cfg_t *cfg, cfg_opt_t *opt)
 {
 	FILE *mf; char *buf; size_t len;
 	int fail = cb_common(K_VALID);
-	(void)cfg;
 	memprintf_begin(&mf, &buf, &len);
 	fprintf(mf, "{\"k\":\"valid\",\"o\":");
 	jstr(mf, cfg_opt_name(opt));
@@ -228,6 +228,8 @@ static int valid_cb(cfg_t *cfg, cfg_opt_t *opt)
 	fprintf(mf, ",\"n\":%ld,\"fail\":%d}", cbcount[K_VALID], fail);
 	fclose(mf);
 	logadd(buf);
+	if (fail)
+		cfg_error(cfg, "validation callback refused '%s'", cfg_opt_name(opt));
 	return fail ? 1 : 0;
 }
 
@@ -269,7 +271,6 @@ static int func_cb(cfg_t *cfg, cfg_opt_t *opt, int argc, const char **argv)
 {
 	FILE *mf; char *buf; size_t len;
 	int i, fail = cb_common(K_FUNC);
-	(void)cfg;
 	memprintf_begin(&mf, &buf, &len);
 	fprintf(mf, "{\"k\":\"func\",\"o\":");
 	jstr(mf, cfg_opt_name(opt));
@@ -282,6 +283,8 @@ static int func_cb(cfg_t *cfg, cfg_opt_t *opt, int argc, const char **argv)
 	fprintf(mf, "],\"n\":%ld,\"fail\":%d}", cbcount[K_FUNC], fail);
 	fclose(mf);
 	logadd(buf);
+	if (fail)
+		cfg_error(cfg, "function '%s' failed", cfg_opt_name(opt));
 	return fail ? 1 : 0;
 }
 
